@@ -122,8 +122,8 @@ func writeGopath(e *Env, gp string, progs []*Program, vendor bool) error {
 func CheckC16(e *Env) int {
 	t0 := time.Now()
 	rep := NewReport(e, "C16", "exploration", "accepted programs with large internal tables (3-4 packages sharing a package name, many values incl. same type name in different packages, 4 injectors over 2 files, blank imports, copied declarations); each generated repeatedly in fresh processes (Go randomises map iteration per process), from two checkout roots of different depth, invoked as '.', './<dir>', the import path and './...' together with other packages, and in module, GOPATH and GOPATH+vendor layouts; oracle: byte-identical wire_gen.go everywhere, no scratch path / host name / date in it; distinct = (program shape, run kind)")
-	n := e.tierN(24, 160)
-	repeats := e.tierN(5, 12)
+	n := e.tierN(16, 160)
+	repeats := e.tierN(4, 12)
 	host, _ := os.Hostname()
 	var mu sync.Mutex
 	if e.Tier == "thorough" {
